@@ -140,7 +140,10 @@ def conditions(tier):
 ASSUMPTIONS = ['Manifest parsing replaced by model entry objects (find_path_entry and the '
                'component-wise matching are the real code)',
                'the model root "/" holds no Manifest']
-OUTSIDE = ['depth > 3', 'several Manifest names present at one level']
+OUTSIDE = ['depth > 3', 'several Manifest names present at one level',
+           'start paths that are, or go through, a symbolic link (the model resolves ".." '
+           'textually; gemato walks physically but matches IGNORE on the textual relative '
+           'path, and the statement does not say which ancestors count there)']
 STUBS = ['gemato.find_top_level.os / open_potentially_compressed_path -> ModelFS']
 
 
